@@ -324,3 +324,42 @@ Theorem C01_source_listing_tails :
    "bsonkit.Sort(list, []bsonkit.Column{{Path: ""name""}})"; "return list, nil"]%string.
 Proof. split; [exact gen_list_collections_post_ok|exact gen_list_databases_post_ok]. Qed.
 Print Assumptions C01_source_listing_tails.
+
+(* ---------------- refinement for the catalog-level calls ----------------
+   The reference model extended by CreateCollection, ListCollections and
+   CreateMany (Spec/SpecDbExt.v: a collection is its documents and index
+   definitions; creating adds an empty one with the _id definition; listing
+   enumerates the collections of the database): the implementation model gives
+   the same replies and keeps equal contents, for EVERY history of
+   non-session calls that may contain them.  ListDatabases is outside the
+   reference (it reports `local`, whose only collection is the change log the
+   reference does not have): C01_list_databases_exact states it directly. *)
+From Lungo.Spec Require Import SpecDbExt.
+From Lungo.Proofs Require Import RefineExt.
+
+Theorem C01_ext_step_refines :
+  forall matchf applyf extractf projectf now ds s x,
+    RefineStep.R matchf ds s -> x_no_session x ->
+    let '(ds', r1) := xstep matchf applyf extractf projectf now ds x in
+    let '(s', r2) := xs_step matchf applyf extractf projectf now s x in
+    r1 = r2 /\ RefineStep.R matchf ds' s'.
+Proof. exact xstep_refines. Qed.
+Print Assumptions C01_ext_step_refines.
+
+Theorem C01_ext_refines :
+  forall matchf applyf extractf projectf now xs,
+    Forall x_no_session xs ->
+    let '(ds, rs) := xrun matchf applyf extractf projectf now d_init xs in
+    let '(s, rs') := xs_run matchf applyf extractf projectf now s_init xs in
+    rs = rs' /\ RefineStep.abs ds = s.
+Proof. exact xrefines. Qed.
+Print Assumptions C01_ext_refines.
+
+(* non-vacuity: a history with all three calls satisfies the premise *)
+Example C01_ext_refines_nonvacuous :
+  Forall x_no_session
+    [XCreateColl 0 ("db", "c")%string;
+     XCreateMany 0 ("db", "c")%string [mkISpec "" [("a", VInt32 1)]%string true None None];
+     XBase (CInsertOne 0 ("db", "c")%string [("a", VInt32 1)]%string);
+     XListColls 0 "db"%string []].
+Proof. repeat constructor; discriminate. Qed.
